@@ -96,12 +96,18 @@ def generate(seed, tier):
     if rng.random() < 0.7:
         ops.append(gen_gv(rng))
     fw = {k: rng.choice([0, 1, 2]) for k in ("scribble", "freeze", "clock", "reseed", "filters", "printpol", "failed")}
-    w = dict(call=14, gv=3, clean=1, recall=rng.choice([1, 2, 3]))
+    w = dict(call=14, gv=3, clean=1, recall=rng.choice([1, 2, 3]), mkgrid=rng.choice([0, 1, 2]))
+    leak_at = rng.randrange(5, 30) if rng.random() < 0.06 else None
     w.update(fw)
     kinds = [k for k, c in w.items() for _ in range(c)]
     favourites = rng.sample(LIGHT, min(len(LIGHT), rng.randint(6, 18)))
-    for _ in range(rng.randint(12, 42)):
+    for step_ in range(rng.randint(12, 42)):
+        if leak_at is not None and step_ == leak_at:
+            ops.append({"op": "leakramp", "upto": rng.choice([1100, 300, 600]), "every": rng.choice([1, 1, 7])})
         k = rng.choice(kinds)
+        if k == "mkgrid":
+            ops.append({"op": "mkgrid", "kind": rng.choice(["E", "O1", "O2"])})
+            continue
         if k == "call":
             if heavy_left and rng.random() < 0.12:
                 name = rng.choice(HEAVY if tier == "thorough" or rng.random() < 0.5 else ["GET_EYE", "FBG"])
@@ -123,7 +129,7 @@ def generate(seed, tier):
         elif k == "clean":
             ops.append({"op": "clean"})
         elif k == "scribble":
-            ops.append({"op": "scribble", "t": rng.choice(["O", "E", "bits"]), "h": rng.getrandbits(12),
+            ops.append({"op": "scribble", "t": rng.choice(["O", "E", "bits", "arr"]), "h": rng.getrandbits(12),
                         "buf": rng.choice(["signal", "noise"]), "pos": rng.getrandbits(20), "val": rng.choice([0, 1, 0.5])})
         elif k == "freeze":
             ops.append({"op": "freeze", "on": rng.random() < 0.6})
@@ -237,6 +243,8 @@ def to_value(o, L):
         return ("bits", np.array(o.data))
     if isinstance(o, ty.eye):
         return ("eye", {k: (np.array(v) if isinstance(v, np.ndarray) else v) for k, v in o.__dict__.items()})
+    if isinstance(o, np.ndarray):
+        return ("arr", np.array(o))
     raise TypeError(type(o))
 
 
@@ -249,6 +257,8 @@ def from_value(v, L):
         return ty.electrical_signal(v[1], v[2]) if v[2] is not None else ty.electrical_signal(v[1])
     if v[0] == "bits":
         return ty.binary_sequence(v[1])
+    if v[0] == "arr":
+        return np.array(v[1])
     if v[0] == "eye":
         e = ty.eye()
         for k, val in v[1].items():
@@ -404,7 +414,7 @@ class Bench:
         self.rec = rec
         self.clock = seams.install_clock(cfg.get("pool_seed", 0))
         self.frozen = False
-        self.pool = {t: [] for t in ("O", "E", "bits", "eye")}
+        self.pool = {t: [] for t in ("O", "E", "bits", "eye", "arr")}
         self.static = {t: 0 for t in self.pool}
         self.dig = {}
         self.customs = {}
@@ -440,8 +450,15 @@ class Bench:
         self._add("O", ty.optical_signal(f3.copy()), static=True)
         e = ty.eye(mu0=0.1, mu1=1.0, s0=0.05, s1=0.08, threshold=0.5, t_opt=0.0, i=8)
         self._add("eye", e, static=True)
+        # caller-owned plain ndarrays: a time vector that does not start at 0, drive waveforms, a threshold array
+        self._add("arr", (np.arange(256) + 37) * 6.25e-11, static=True)
+        self._add("arr", rs.uniform(-4, 4, 1024), static=True)
+        self._add("arr", rs.uniform(-4, 4, 256), static=True)
+        self._add("arr", rs.uniform(0.2, 0.8, 1024), static=True)
 
     def _bufs(self, o):
+        if isinstance(o, np.ndarray):
+            return [o]
         return [b for b in (getattr(o, "signal", None), getattr(o, "noise", None), getattr(o, "data", None))
                 if isinstance(b, np.ndarray)] + ([v for v in o.__dict__.values() if isinstance(v, np.ndarray)]
                                                  if isinstance(o, self.L.ty.eye) else [])
@@ -575,7 +592,13 @@ class Bench:
         dig = digest_result(out[1], L) if out[0] == "ok" else None
         # (3) no aliasing of inputs
         if out[0] == "ok" and "self" not in flags:
+            gv_arrays = [v for v in L.gv.__dict__.values() if isinstance(v, np.ndarray)]
             for rb in result_buffers(out[1], L):
+                for ga in gv_arrays:
+                    if seams.shares(rb, ga):
+                        raise Violation("C14/alias", f"{what}: a result buffer is (a view of) one of gv's own arrays; a "
+                                                     f"caller writing into the result would change the global grid",
+                                        f"{name}")
                 for t, o in self._all():
                     for pb in self._bufs(o):
                         if seams.shares(rb, pb):
@@ -632,6 +655,7 @@ class Bench:
         scribbled = False
         if op.get("rscrib") and out[0] == "ok" and "self" not in flags:
             dig0 = digest_result(out[1], self.L)
+            gv_before_scribble = seams.gv_snapshot()
             hit = 0
             for rb in result_buffers(out[1], self.L):
                 if rb.flags.writeable and rb.size and rb.dtype.kind in "fciub":
@@ -643,6 +667,8 @@ class Bench:
                 scribbled = True
                 self.rec.fault("scribble_result")
                 self._pool_unchanged(f"{name}: scribble on the result", oracle="C14/alias")
+                if seams.gv_snapshot() != gv_before_scribble:
+                    raise Violation("C14/alias", f"{what}: writing into the returned object changed gv", f"{name}")
                 again = self._one_call(name, op["args"], inp, op["rng"], op["s"], what + " [again, after the caller "
                                        "wrote into the previous result]", False, flags)
                 if op["rng"] == "seed" and (again[0] != "ok" or digest_result(again[1], self.L) != dig0):
@@ -703,15 +729,72 @@ class Bench:
             self.rec.probe("failed call leaked a tic entry")
         return out[0] + ":" + str(out[1])[:20]
 
+    def op_mkgrid(self, op):
+        """A user builds a signal on the global time grid (the documented idiom `gv.t`): its length is N*sps."""
+        gv = self.L.gv
+        if gv.N is None or not isinstance(gv.t, np.ndarray) or not (32 <= gv.t.size <= 8192):
+            return "skip"
+        t = np.array(gv.t)
+        ty = self.L.ty
+        if op["kind"] == "E":
+            self._add("E", ty.electrical_signal(0.5 + 0.4 * np.sin(2 * np.pi * gv.R * t)))
+        elif op["kind"] == "O1":
+            self._add("O", ty.optical_signal(0.02 * np.exp(2j * np.pi * gv.R * t)))
+        else:
+            f = 0.02 * np.exp(2j * np.pi * gv.R * t)
+            self._add("O", ty.optical_signal(np.vstack([f, 0.5 * f])))
+        self.rec.probe("signal built on gv.t (length N*sps)")
+        return f"grid:{t.size}"
+
+    def op_leakramp(self, op):
+        """Many failed calls leak tic() entries; at every timer-stack depth on the way a nested device call
+        (DAC with a bandwidth -> LPF inside) must still work and give the result it gave at depth 0."""
+        L = self.L
+        bits = self.pool["bits"][0]
+        bw = 0.3 * L.gv.fs
+
+        def nested():
+            with warnings.catch_warnings():
+                warnings.simplefilter("ignore")
+                return digest_result(L.dv.DAC(bits, 0.0, 1.0, "nrz", bw), L)
+        try:
+            base = nested()
+            d0 = seams.timer_stack_depth()
+            k = 0
+            while seams.timer_stack_depth() < op["upto"] and k < 2000:
+                try:
+                    L.dv.PRBS(8, 10)
+                except ValueError:
+                    pass
+                k += 1
+                if k % op["every"] == 0 and nested() != base:
+                    raise Violation("C14/history-dep", f"DAC(BW) gives a different result at timer-stack depth "
+                                                       f"{seams.timer_stack_depth()} than at depth {d0}", "leakramp/DAC")
+        except Violation:
+            raise
+        except Exception as e:
+            if not core.from_library(e):
+                raise
+            raise Violation("C14/history-dep", f"after {seams.timer_stack_depth()} leaked tic() entries (failed calls "
+                                               f"earlier in the session) a nested device call raised {type(e).__name__}: {e}",
+                            "leakramp/raise")
+        self.rec.fault("leak_ramp")
+        self.faults_since.append("leak")
+        self.rec.probe("timer-stack depth swept", seams.timer_stack_depth() - d0)
+        return f"depth:{seams.timer_stack_depth()}"
+
     # -- faults --------------------------------------------------------------------------------------------------
     def op_scribble(self, op):
         objs = self.pool[op["t"]]
         if not objs:
             return "skip"
         o = objs[op["h"] % len(objs)]
-        buf = getattr(o, op["buf"], None) if op["t"] != "bits" else o.data
-        if buf is None:
-            buf = getattr(o, "signal", None)
+        if op["t"] == "arr":
+            buf = o
+        else:
+            buf = getattr(o, op["buf"], None) if op["t"] != "bits" else o.data
+            if buf is None:
+                buf = getattr(o, "signal", None)
         if buf is None or not buf.flags.writeable:
             return "skip"
         flat = buf.reshape(-1)
